@@ -33,7 +33,7 @@ REAL_COMPONENTS = ["cli _run launch loop", "expand_run_space (plan source)", "Ru
 STUB_COMPONENTS = ["leaf processors", "SvOrchestrator/RecordingExecutor selected from YAML", "SimClock/SimUUID", "file seam"]
 ASSUMPTIONS = ["the plan is taken from expand_run_space (C08 is not claimed)", "trace content is compared after removing the C10 "
                "volatile fields and the run-space FK fields (launch id, attempt, index, context)"]
-REQUIRED_PROBES = ["empty_plan", "yaml_not_in_cwd_with_source_and_decoy", "other_process_other_hashseed", "failing_run", "source_file", "idempotency_key", "explicit_launch_id", "attempt_gt_1", "multi_run_launch", "directory_mode", "run_space_nested_under_pipeline"]
+REQUIRED_PROBES = ["empty_plan", "yaml_not_in_cwd_with_source_and_decoy", "other_process_other_hashseed", "failing_run", "source_file", "idempotency_key", "explicit_launch_id", "attempt_gt_1", "multi_run_launch", "directory_mode", "run_space_nested_under_pipeline", "null_cell_in_later_row", "non_ascii_run_space_value", "failing_run_with_non_exception_abort"]
 CONFIG = {
     "quick": {"runs": 800, "budget_s": 240, "timeout_s": 180},
     "thorough": {"runs": 30000, "budget_s": 1600, "timeout_s": 180},
@@ -52,7 +52,7 @@ def generate(rng: random.Random, tier: str, seed: int) -> dict:
         if base["init_data"] is None:
             break
     num_keys = [k for k, v in base["context"].items() if isinstance(v, float)]
-    rsd = gen.gen_run_space(rng, sorted(num_keys)[:3], allow_source=True)
+    rsd = gen.gen_run_space(rng, sorted(num_keys)[:3], allow_source=True, exotic=True)
     opt = rng.choice(["generated", "generated", "explicit", "idem"])
     sc = {"base": {k: base[k] for k in ("nodes", "context", "init_data")}, "run_space": rsd["run_space"], "files": rsd["files"],
           "mode": rng.choice(["file", "dir"]), "detail": rng.choice(harness.DETAILS), "launch_opt": opt,
@@ -66,6 +66,7 @@ def generate(rng: random.Random, tier: str, seed: int) -> dict:
         sc["files"] = {}
         sc["fail_at"] = None
     sc["nested_layout"] = rng.random() < 0.3
+    sc["fail_kind"] = rng.choice(["exception", "exception", "exception", "abort", "sysexit"])
     sc["hashseed"] = rng.choice([1, 2, 3, 5, 6, 7, 11]) if (rsd["files"] or rng.random() < 0.15) else None
     return sc
 
@@ -113,7 +114,7 @@ def _launch(sc: dict, w, name: str, run_space: dict, *, opt: str, idem: str = "k
     plan_keys = set().union(*[set(r) for r in plan]) if plan else set()
     for k, v in base["context"].items():
         if k not in plan_keys:
-            argv += ["--context", f"{k}={json.dumps(v)}"]
+            argv += ["--context", f"{k}={harness.cli_value(v)}"]
     argv += list(extra)
     first = len(w.emissions)
     run0 = w.cur_run
@@ -204,7 +205,8 @@ def _mutate_plan(rs: dict, rng: random.Random) -> dict | None:
         return None
     b = rng.choice(blocks)
     k = rng.choice(sorted(b["context"]))
-    b["context"][k][0] = b["context"][k][0] + 1000.0
+    v0 = b["context"][k][0]
+    b["context"][k][0] = (v0 + 1000.0) if isinstance(v0, float) else (f"{v0}-changed" if isinstance(v0, str) else 1000.0)
     return rs
 
 
@@ -291,7 +293,17 @@ def execute(sc: dict, seed: int) -> dict:
             return {"violations": viols, "stats": stats, "digests": [_digest(rs)], "nontrivial": [], "digest": w.digest(),
                     "sample": {"run_space": rs, "record_types": types}}
         fail_at = sc["fail_at"] if (sc["fail_at"] is not None and sc["fail_at"] < n) else None
-        fault = {"site": "executor_pre", "kind": "exception", "node": sc["fail_node"]}
+        fault = {"site": "executor_pre", "kind": sc.get("fail_kind", "exception"), "node": sc["fail_node"]}
+        # rows are runs: every run of a plan supplies the same keys (a null cell is a value, not an absent key)
+        all_keys = set().union(*[set(r) for r in plan])
+        short = [i for i, r in enumerate(plan) if set(r) != all_keys]
+        if short:
+            viols.append(oracles.V("plan_order", "run_lacks_a_run_space_key", f"plan of {n} runs over keys {sorted(all_keys)}: run(s) {short} lack "
+                                   f"{[sorted(all_keys - set(plan[i])) for i in short][:3]}"))
+        if any(v is None for r in plan for v in r.values()):
+            stats["probe.null_cell_in_later_row"] = 1
+        if any(isinstance(v, str) and not v.isascii() for r in plan for v in r.values()):
+            stats["probe.non_ascii_run_space_value"] = 1
         ctx0 = sc["base"]["context"]
         alone = []
         upto = n if fail_at is None else fail_at + 1
@@ -306,6 +318,10 @@ def execute(sc: dict, seed: int) -> dict:
         L = _launch(sc, w, "launch", rs, opt=sc["launch_opt"], faults=[dict(fault, run=fail_at)] if fail_at is not None else None)
         recs = L["records"]
         code = L["cli"]["code"]
+        if isinstance(code, str) and fail_at is not None and L["cli"].get("exc") is not None and L["cli"]["exc"] is w.last_injected:
+            code = 1        # the run's own BaseException-class abort left cli.main: the process dies of it, status 1
+        if fail_at is not None and sc.get("fail_kind", "exception") != "exception":
+            stats["probe.failing_run_with_non_exception_abort"] = 1
         where = f"launch opt={sc['launch_opt']} attempt={sc['attempt']} mode={sc['mode']} plan={n} fail_at={fail_at} exit={code} stderr={L['cli']['stderr'][:120]!r}"
         if isinstance(code, str):
             viols.append(oracles.V("cli_crash", "launch", where))
